@@ -25,6 +25,39 @@ C={
    text="Every xorb the store received in every enumerated scenario is non-empty, within MAX_XORB_CHUNKS / MAX_XORB_BYTES / max chunk size of its configuration, accepted by the seekable validator; no file record (shards, finalize_with_file_info) carries the zero xorb hash.",
    note=SESSION_NOTE, ref="4/C15"),
 }
+
+SHARD_NOTE=("Trusted: the plain Rust reference model of shard records (harness/labs/src/shard_model.rs resp. the in-lab model of lab_shard_dedup.rs), blake3. "
+  "Shard-level hashes are free 256-bit values, so truncated-prefix collisions are constructed. Bounded as stated in the evidence rule.")
+C.update({
+ "C05":dict(lab="lab_shard_dedup",cat="model_checking",tech="explicit-state BFS over ShardFileManager histories + exhaustive (shard, query-sequence) enumeration against a reference chunk-list model",
+   text="Every dedup answer of the in-memory index, MDBShardInfo, MDBShardFile, keyed exports and ShardFileManager (after every add/flush/register/keyed-register/consolidate history up to depth 4 quick / 6 thorough, deduplicated by canonical state) for all query sequences of length <= 4 over a 5-hash alphabet with two colliding 64-bit prefix pairs (+ absent hashes) is checked for truthfulness against the recorded chunk lists; large shards to 3000 chunks and a 66000-chunk xorb.",
+   note=SHARD_NOTE+" Soundness only (a miss is never a violation).", ref="4/C05"),
+ "C18":dict(lab="lab_shard_dedup",cat="exploration",tech="bounded exhaustive enumeration of (shard, key, include-flags, directory mix) exports and of (creation, validity, grace, now) orderings under a fake clock",
+   text="Every export of the small shard family under keys {zero,k1,k2} x all 8 include-flag combinations is re-parsed by an independent layout parser (keyed chunk hashes, no raw hash bytes, records kept/dropped as requested) and compared through ShardFileManager with the original; expiry instants around expiry and end-of-grace are executed with CLOCK_REALTIME interposed.",
+   note=SHARD_NOTE+" Equality of answers demanded only on duplicate-free, collision-free shards; instants of equality are logged, not constrained.", ref="4/C18"),
+ "C09":dict(lab="lab_shard_store",cat="exploration",tech="bounded exhaustive enumeration of shard contents and lookup-table shapes (incl. the >256-entry interpolation regime) against a BTreeMap reference, through every reader",
+   text="Every small shard over a key alphabet with up to 8 records per truncated prefix and extreme keys, all flag combinations, and lookup tables of 255..1025 entries with every duplicate-run length/start position against 10 backgrounds is serialized by the real writer and read back through the seekable, streaming (sync/async), minimal and file-handle readers; every alphabet key is looked up and sizes/totals compared with the in-memory accounting.",
+   note=SHARD_NOTE, ref="4/C09"),
+ "C10":dict(lab="lab_shard_store",cat="model_checking",tech="all ordered shard pairs for union/difference + explicit-state BFS over session-directory histories (write shard / consolidate with 4 thresholds, every mtime order) against reference set semantics",
+   text="All ordered pairs of a 54 (quick) / 242 (thorough) shard family through three set-operation APIs, and a BFS to depth 5/6 over directory histories with real consolidations in fresh directories; retrievable record set, returned names = content hash, deleted inputs covered by outputs.",
+   note=SHARD_NOTE, ref="4/C10"),
+ "C07":dict(lab="lab_xorb",cat="exploration",tech="bounded exhaustive enumeration of chunk lists x compression schemes with an independent frame decoder and all chunk ranges",
+   text="All lists of <= 2 chunks over 20 lengths x 6 content classes (3-4 chunks over reduced alphabets, 1000 and 8192 tiny chunks) under {None, LZ4, BG4-LZ4, auto}: whole-object and every chunk-range read, offsets, footer, reference frame decoder, sync = async = stream decoders fed in 1/3/8/whole-byte pieces, bg4 split/regroup for lengths 0..67.",
+   note="Trusted: reference frame decoder in refmodel.rs (uses the lz4_flex crate, as the code under test does), blake3.", ref="4/C07"),
+ "C08":dict(lab="lab_xorb",cat="fault_enumeration",tech="exhaustive single-fault enumeration (byte xor/set, truncation at every offset, extension, chunk drop/dup/swap/splice, count/length fields) over 37 seed xorbs, in sub-processes under a counting allocator",
+   text="Every enumerated mutation of every seed (v1 footer, v0 footer, footer-less; each scheme) and all short byte strings are given to both validators, CasObject::deserialize and the partial footer parser against the true and two wrong hashes: accept implies reference-decodable and hash-consistent; never a panic, > 64 MiB allocation or > 1 s.",
+   note="Trusted: reference decoder/footer parser in refmodel.rs; validator disagreements are listed, not alarmed.", ref="4/C08"),
+ "C12":dict(lab="lab_cache",cat="model_checking",tech="explicit-state BFS over put/get/reopen histories with every eviction victim + preemption-bounded exhaustive schedule exploration (own cooperative scheduler, switch points at lock hooks and interposed FS calls) + exhaustive single-fault damage enumeration",
+   text="(a) all sequential histories to depth 3 (quick) / 4 (thorough) over 2 keys x 3 chunks and three capacity classes, every eviction choice; (b) every schedule with <= 2 (3 for two single-op threads, thorough) preemptions of 8 (quick) / 20 (thorough) forced-collision harnesses; (c) every bit burst {1,2,8,31,32}, truncation, extension, deletion, rename and planted junk at all three directory levels after 4/6 base histories: a hit must return the reference slice; never a panic or deadlock.",
+   note="Trusted: hooks H2 (points before the state lock, eviction draw as environment choice), libc interposition for FS switch points; sequential consistency at switch-point granularity.", ref="4/C12"),
+ "C13":dict(lab="lab_cache",cat="model_checking",tech="same exploration as C12 (sequential BFS + preemption-bounded schedules) with accounting oracles at every quiescent point",
+   text="At every quiescent point of every explored history/schedule: num_items = tracked entries, total_bytes = sum of lengths, every cache file belongs to a tracked entry, totals = directory listing after read-back, total_bytes <= capacity after an insertion, state equal after reopen.",
+   note="Trusted: read-only snapshot hook H2; same assumptions as C12.", ref="4/C13"),
+ "C20":dict(lab="lab_singleflight",cat="model_checking",tech="preemption-bounded exhaustive schedule exploration of real Group::work callers under a cooperative scheduler (stateless DFS, replay-checked), history oracle",
+   text="Every schedule with <= 2 (quick) / 3 (thorough; unbounded for two-caller harnesses) preemptions of 50 harnesses (2-3 callers x ok/err/panic tasks x 0/1 task yields, two keys, late caller): executed tasks = owners, every non-owner gets the outcome of an overlapping owner of its key, late calls start a new flight, no deadlock.",
+   note="Trusted: hooks H1/H1b (points around singleflight's locks, controllable spawn with tokio's task contract); tokio's Notify/Mutex run unmodified; free-running pass on real runtimes is informational.", ref="4/C20"),
+})
+
 checks=[]
 for p in props:
     if p in C:
